@@ -208,6 +208,14 @@ theorem stepSync_drops (net : Net) (s : Sim) (mi : Nat) (path : String) (ttl : N
   | restart d => exact requestShutdown_drops ..
   | sig n => exact Drops.of_eq rfl rfl
   | wait n => exact Drops.refl s
+  | schedr kind =>
+    simp only [stepSync]
+    have hA : Drops s ((s.pop.2).log path "draw" who "-" [s.pop.1]) := (Drops.pop s).trans (Drops.of_eq rfl rfl)
+    by_cases h0 : ttl = 0
+    · simp only [h0, if_true]; exact hA
+    · simp only [h0, if_false]; exact hA.trans (Drops.of_eq rfl rfl)
+  | spin l t e => exact Drops.refl s
+  | spun l t e => exact Drops.refl s
 
 theorem runHandler_drops (net : Net) (mi : Nat) (path : String) (ttl : Nat) (steps : List Step) :
     ∀ s : Sim, Drops s (runHandler net s mi path ttl steps) := by
@@ -231,6 +239,9 @@ theorem runHandler_drops (net : Net) (mi : Nat) (path : String) (ttl : Nat) (ste
     | restart d => exact (stepSync_drops net s mi path ttl "H" _).trans (ih _)
     | sig n => exact (stepSync_drops net s mi path ttl "H" _).trans (ih _)
     | wait n => exact (stepSync_drops net s mi path ttl "H" _).trans (ih _)
+    | schedr k => exact (stepSync_drops net s mi path ttl "H" _).trans (ih _)
+    | spin l t e => exact (stepSync_drops net s mi path ttl "H" _).trans (ih _)
+    | spun l t e => exact (stepSync_drops net s mi path ttl "H" _).trans (ih _)
 
 theorem selPoll_drops (s : Sim) (mi : Nat) (path tag : String) (ti : Nat) (ss : List Sl) :
     Drops s (selPoll s mi path tag ti ss).1 := by
@@ -243,6 +254,12 @@ theorem selPoll_drops (s : Sim) (mi : Nat) (path tag : String) (ti : Nat) (ss : 
     split
     · exact (Drops.pop s).trans (Drops.of_eq rfl rfl)
     · exact (Drops.pop s).trans (Drops.of_eq rfl rfl)
+
+theorem spinDraw_drops (s : Sim) (path tag : String) (l t e : Nat) : Drops s (spinDraw s path tag l t e) := by
+  unfold spinDraw
+  by_cases h : (t - l) % e = 0
+  · simp only [h, if_true]; exact (Drops.pop s).trans (Drops.of_eq rfl rfl)
+  · simp only [h, if_false]; exact Drops.refl s
 
 theorem runTask_drops (net : Net) (a : Ambient) (mi : Nat) (path tag : String) (ti ttl : Nat) (prog : List Step) :
     ∀ s : Sim, Drops s (runTask net a mi path tag ti ttl s prog) := by
@@ -273,6 +290,17 @@ theorem runTask_drops (net : Net) (a : Ambient) (mi : Nat) (path tag : String) (
     | shut => simp only [runTask]; exact (stepSync_drops net s mi path ttl tag _).trans (ih _)
     | restart d => simp only [runTask]; exact (stepSync_drops net s mi path ttl tag _).trans (ih _)
     | sig n => simp only [runTask]; exact (stepSync_drops net s mi path ttl tag _).trans (ih _)
+    | schedr k => simp only [runTask]; exact (stepSync_drops net s mi path ttl tag _).trans (ih _)
+    | spin l t e =>
+      simp only [runTask]
+      cases l with
+      | zero => exact ih _
+      | succ k => exact Drops.of_eq rfl rfl
+    | spun l t e =>
+      simp only [runTask]
+      cases l with
+      | zero => exact (spinDraw_drops s path tag 0 t e).trans (ih _)
+      | succ k => exact (spinDraw_drops s path tag (k + 1) t e).trans (Drops.of_eq rfl rfl)
     | wait name =>
       simp only [runTask]
       cases s.mods[mi]? with
@@ -323,7 +351,11 @@ theorem schedLoop_drops (net : Net) (a : Ambient) (mi : Nat) (path : String) (fu
     | some m =>
       simp only []
       cases nextTask (m.tick + 1) m.localq m.inject with
-      | none => exact Drops.of_eq rfl rfl
+      | none =>
+        simp only []
+        cases m.deferq with
+        | nil => exact Drops.of_eq rfl rfl
+        | cons x r => exact Drops.after_eq (ih _) rfl rfl
       | some r =>
         obtain ⟨t, l, i⟩ := r
         simp only []
